@@ -330,83 +330,94 @@ theorem merge_byte {c B x : Nat} (hc1 : 1 ≤ c) (hc : c < 8) (hB : B < 256) (hB
   rw [msbBits_mul_add hx, msbBits_mod x (Nat.le_refl _)]
 
 
-/-- `Hendbitaccess` after sequential writing: the element holds the emitted bytes, the last partial byte
-    (pending bits on top of the stale low bits of the buffer byte) and - once a block was flushed - the whole buffer. -/
-theorem endAccess_ok {s : St} (h : WInv s) (hr : RegOK s) (hm : s.maxOff = s.byteOff) (fb : Option Bool) :
-    (∃ tail, bytesBits (endAccess s fb) = stream s ++ tail) ∧
-    (s.elem = [] → ∃ k, k < 8 ∧ bytesBits (endAccess s fb) = stream s ++ List.replicate k false) ∧
-    (endAccess s fb).length =
-      (if s.elem = [] then s.pre.length + (if s.count < 8 then 1 else 0) else s.elem.length + 4096) := by
+theorem msbBits_ones : ∀ c, c ≤ 8 → msbBits c 255 = List.replicate c true := by
+  intro c
+  induction c with
+  | zero => intro _; rfl
+  | succ c ih =>
+    intro h
+    have ht : Nat.testBit 255 c = true := by
+      rw [show (255 : Nat) = 2 ^ 8 - 1 from rfl, Nat.testBit_two_pow_sub_one]; simp; omega
+    simp [msbBits, ht, ih (by omega), List.replicate_succ]
+
+/-- the write-out part of `HIbitflush` on a state without pending bits: the element becomes the emitted bytes -/
+theorem writeout_ok {s : St} (h : WInv s) (hc : s.count = 8) (hm : s.maxOff = s.byteOff) (fb : Option Bool) :
+    (bitflush s fb true).elem = emitted s := by
   obtain ⟨h1, h2, h3, h4, h5, h6, h7, h8, h9, h10, h11, h12, h13, h14⟩ := h
-  obtain ⟨hc1, hc8, hB, hB0⟩ := hr
   obtain ⟨elem, posn, isNew, wAccess, wMode, blockOff, maxOff, byteOff, count, bufRead, bits, pre, post, bytep, bytez, oob, err⟩ := s
-  simp only at h1 h2 h3 h4 h5 h6 h7 h8 h9 h10 h11 h12 h13 h14 hc1 hc8 hB hB0 hm
-  subst h1 h2 h3 h4 h5 h6 h7 h8 hm
-  unfold endAccess bitflush
-  simp only [if_true, stream, emitted]
-  by_cases hc : count < BITNUM
-  · have hc' : count < 8 := hc
-    match post, h10, h13 with
-    | [], h10, _ => simp at h10; omega
-    | x :: r, h10, h13 =>
-      simp only [hc, if_true, Nat.lt_irrefl, gt_iff_lt, if_false, St.peek, St.store, St.adv, Nat.lt_succ_self]
-      generalize hy : UInt8.ofNat ((x.toNat &&& (255 ^^^ ((maskC (BITNUM - count) <<< count) % 256)) ||| bits) % 256) = y
-      have hyb : msbBits 8 y.toNat = msbBits (8 - count) (bits / 2 ^ count) ++ msbBits count x.toNat := by
-        rw [← hy, toNat_ofNat_byte, Nat.mod_mod]
-        exact merge_byte hc1 hc' hB hB0
-      have hr : pre.length + (r.length + 1) = 4096 := by simpa using h10
-      have hpos : 0 < min 4096 (maxOff + 1) := by omega
-      simp only [hpos, if_true, hWrite, St.buf]
-      rcases h14 with he | hbig
-      · subst he
-        have hb : maxOff = pre.length := by simpa using h11
-        have hmin : min 4096 (maxOff + 1) = pre.length + 1 := by omega
-        have htk : List.take (pre.length + 1) ((y :: pre).reverse ++ r) = pre.reverse ++ [y] := by
-          rw [List.take_append_of_le_length (by simp)]
-          rw [List.take_of_length_le (by simp)]; simp
-        have hx0 : x = 0 := h13 rfl x (by simp)
-        simp only [hmin, htk, List.length_nil, List.take_nil, List.nil_append, List.drop_nil, List.append_nil, if_true]
-        refine ⟨⟨msbBits count x.toNat, ?_⟩, fun _ => ⟨count, hc', ?_⟩, ?_⟩
-        · simp [bytesBits_append, bytesBits_singleton, hyb]
-        · simp [bytesBits_append, bytesBits_singleton, hyb, hx0, msbBits_zero]
-        · simp [hc']
-      · have hne : ¬ elem = [] := by intro e; rw [e] at hbig; simp at hbig
-        have hmin : min 4096 (maxOff + 1) = 4096 := by omega
-        have hlen : ((y :: pre).reverse ++ r).length = 4096 := by simp; omega
-        simp only [hmin, hne, if_false]
-        rw [List.take_of_length_le (Nat.le_of_eq hlen), List.take_of_length_le (Nat.le_refl _), List.drop_of_length_le (by omega)]
-        refine ⟨⟨msbBits count x.toNat ++ bytesBits r, ?_⟩, fun e => by simp at e, ?_⟩
-        · simp [bytesBits_append, bytesBits_cons, hyb, List.append_assoc]
-        · simp; omega
-  · have hc' : count = 8 := by simp [BITNUM] at hc; omega
-    subst hc'
-    simp only [hc, if_false]
-    have hpend : msbBits (8 - 8) (bits / 2 ^ 8) = [] := rfl
-    rw [hpend]
-    rcases h14 with he | hbig
-    · subst he
-      have hb : maxOff = pre.length := by simpa using h11
-      have hmin : min 4096 maxOff = pre.length := by omega
-      rw [hmin]
-      by_cases hz : 0 < pre.length
-      · simp only [gt_iff_lt, hz, if_true, hWrite, St.buf]
-        have htk : List.take pre.length (pre.reverse ++ post) = pre.reverse := by
-          rw [List.take_append_of_le_length (by simp)]
-          rw [List.take_of_length_le (by simp)]
-        simp only [htk, List.length_nil, List.take_nil, List.nil_append, List.drop_nil, List.append_nil, if_true]
-        refine ⟨⟨[], by simp⟩, fun _ => ⟨0, by omega, by simp⟩, by simp⟩
-      · simp only [gt_iff_lt, hz, if_false, if_true]
-        have hnil : pre = [] := List.eq_nil_of_length_eq_zero (by omega)
-        subst hnil
-        refine ⟨⟨[], by simp⟩, fun _ => ⟨0, by omega, by simp⟩, by simp⟩
-    · have hne : ¬ elem = [] := by intro e; rw [e] at hbig; simp at hbig
-      have hmin : min 4096 maxOff = 4096 := by omega
-      have hlen : (pre.reverse ++ post).length = 4096 := by simp; omega
-      simp only [hmin, gt_iff_lt, show (0 : Nat) < 4096 by omega, if_true, hWrite, St.buf, hne, if_false]
-      rw [List.take_of_length_le (Nat.le_of_eq hlen), List.take_of_length_le (Nat.le_refl _), List.drop_of_length_le (by omega)]
-      refine ⟨⟨bytesBits post, ?_⟩, fun e => by simp at e, ?_⟩
-      · simp [bytesBits_append, List.append_assoc]
-      · simp; omega
+  simp only at h1 h2 h3 h4 h5 h6 h7 h8 h9 h10 h11 h12 h13 h14 hc hm
+  subst h1 h2 h3 h4 h5 h6 h7 h8 hm hc
+  unfold bitflush
+  have hnc : ¬ (8 < BITNUM) := by simp [BITNUM]
+  simp only [hnc, if_false, if_true, emitted]
+  have hmin : min 4096 (maxOff - elem.length) = pre.length := by omega
+  rw [hmin]
+  by_cases hz : pre.length > 0
+  · simp only [hz, if_true, hWrite, St.buf]
+    have htk : List.take pre.length (pre.reverse ++ post) = pre.reverse := by
+      rw [List.take_append_of_le_length (by simp)]
+      rw [List.take_of_length_le (by simp)]
+    rw [htk, List.take_of_length_le (Nat.le_refl _), List.drop_of_length_le (by omega)]
+    simp
+  · simp only [hz, if_false]
+    have hnil : pre = [] := List.eq_nil_of_length_eq_zero (by omega)
+    simp [hnil]
+
+/-- `Hendbitaccess(id, flushbit)` after sequential writing: the pending bits are completed to a byte with the flush bit
+    and exactly the bytes produced are written out - for every stream length -/
+theorem endAccess_ok {s : St} (h : WInv s) (hr : RegOK s) (hm : s.maxOff = s.byteOff) (fb : Bool) :
+    ∃ k, k < 8 ∧ bytesBits (endAccess s (some fb)) = stream s ++ List.replicate k fb := by
+  have hw := h.wMode
+  by_cases hc : s.count < 8
+  · -- pending bits: `Hbitwrite(count, flushbit ? 0xFF : 0)` completes the byte
+    have hc1 := hr.1
+    obtain ⟨w1, r1, s1, m1⟩ := bitwriteCore_ok h hr s.count (if fb then 0xFF else 0) hc1 (by omega)
+    have hpad : msbBits s.count (if fb then 0xFF else 0) = List.replicate s.count fb := by
+      cases fb
+      · simp [msbBits_zero]
+      · simp only [if_true]; exact msbBits_ones s.count (by omega)
+    have hmin : min s.count DATANUM = s.count := by simp [DATANUM]; omega
+    have hend : endAccess s (some fb) = (bitflush (bitwriteCore s s.count (if fb then 0xFF else 0)) (some fb) true).elem := by
+      have hcnt' : (bitwriteCore s s.count (if fb then 0xFF else 0)).count = 8 := by
+        have hl := congrArg List.length s1
+        simp [stream, emitted] at hl
+        have := r1.1; have := r1.2.1
+        omega
+      unfold endAccess
+      rw [hw]; simp only [if_true]
+      conv => lhs; unfold bitflush
+      have hcb : s.count < BITNUM := hc
+      have hge : s.byteOff ≥ s.maxOff ∧ (some fb).isSome = true := ⟨by omega, rfl⟩
+      simp only [hcb, if_true, hge, and_self, hmin, Option.getD_some]
+      conv => rhs; unfold bitflush
+      have hnc : ¬ ((bitwriteCore s s.count (if fb then 0xFF else 0)).count < BITNUM) := by rw [hcnt']; simp [BITNUM]
+      simp only [hnc, if_false, if_true]
+    have hcnt' : (bitwriteCore s s.count (if fb then 0xFF else 0)).count = 8 := by
+      have hl := congrArg List.length s1
+      simp [stream, emitted] at hl
+      have := r1.1; have := r1.2.1
+      omega
+    rw [hend, writeout_ok w1 hcnt' (m1 hm)]
+    refine ⟨s.count, hc, ?_⟩
+    have : bytesBits (emitted (bitwriteCore s s.count (if fb then 0xFF else 0))) = stream (bitwriteCore s s.count (if fb then 0xFF else 0)) := by
+      simp [stream, hcnt', msbBits]
+    rw [this, s1, hpad]
+  · have hc8 : s.count = 8 := by have := hr.2.1; omega
+    refine ⟨0, by omega, ?_⟩
+    unfold endAccess
+    rw [hw]; simp only [if_true]
+    rw [writeout_ok h hc8 hm]
+    simp [stream, hc8, msbBits]
+
+/-- length of what `Hendbitaccess` leaves: one byte per 8 bits of the stream, the last one completed -/
+theorem endAccess_length {s : St} (h : WInv s) (hr : RegOK s) (hm : s.maxOff = s.byteOff) (fb : Bool) :
+    (endAccess s (some fb)).length = ((stream s).length + 7) / 8 := by
+  obtain ⟨k, hk, e⟩ := endAccess_ok h hr hm fb
+  have hl := congrArg List.length e
+  simp only [length_bytesBits, List.length_append, List.length_replicate] at hl
+  have hs : (stream s).length = 8 * (emitted s).length + (8 - s.count) := by simp [stream]
+  have := hr.1; have := hr.2.1
+  omega
 
 /-! ## sequential reading -/
 
@@ -460,6 +471,8 @@ theorem fetch_ok {s : St} (h : RInv s) {x : Byte} {t : List Byte} (hr : rest s =
       | zero => omega
       | succ n => simp
     have hn0 : 0 < n := by omega
+    have hd0 : ¬ d.length = 0 := by omega
+    simp only [hd0, if_false]
     refine ⟨_, rfl, ?_⟩
     simp only [St.load, St.setPtr, St.buf, List.reverse_reverse, List.take_append_drop, List.take_zero, List.reverse_nil, List.drop_zero, List.nil_append, getByte, St.peek, St.adv]
     have hbuf : d ++ List.drop d.length (pre.reverse ++ post) = x :: (d.tail ++ List.drop d.length (pre.reverse ++ post)) := by
@@ -734,20 +747,10 @@ theorem startRead_ok (e : List Byte) : RInv (startRead e) ∧ ∃ junk, avail (s
     have hn1 : n ≤ e.length := by omega
     have hn2 : n ≤ 4096 := by omega
     have hl : (List.take n e).length = n := by rw [List.length_take]; omega
-    refine ⟨⟨rfl, rfl, rfl, rfl, rfl, by simp only []; omega, by simp, ?_, by simp, by simp; omega⟩, ?_⟩
+    refine ⟨⟨rfl, rfl, rfl, rfl, rfl, by simp only [hl]; omega, by simp, ?_, by simp, by simp; omega⟩, ⟨[], ?_⟩⟩
     · simp only [List.length_nil, List.length_append, hl, List.length_drop, List.length_replicate]; omega
-    · simp only [avail, rest, window, msbBits, List.nil_append, hl, Nat.zero_add]
-      rw [List.take_of_length_le (by simp only [List.length_append, hl, List.length_drop, List.length_replicate]; omega)]
-      by_cases hbig : e.length ≤ 4096
-      · have : n = e.length := by omega
-        subst this
-        refine ⟨bytesBits (List.drop e.length (List.replicate BITBUF_SIZE 0)), ?_⟩
-        simp [bytesBits_append]
-      · have : n = 4096 := by omega
-        subst this
-        refine ⟨[], ?_⟩
-        rw [List.drop_of_length_le (by rw [List.length_replicate]; omega)]
-        simp only [List.append_nil, ← bytesBits_append, List.take_append_drop]
+    · simp only [avail, rest, window, msbBits, List.nil_append, hl, Nat.zero_add, Nat.sub_zero, List.append_nil]
+      rw [List.take_append_of_le_length (by omega), List.take_of_length_le (by omega), List.take_append_drop]
   · have he : e = [] := List.eq_nil_of_length_eq_zero (by omega)
     subst he
     simp only [List.length_nil, Nat.lt_irrefl, gt_iff_lt, if_false, St.setPtr, St.buf, List.reverse_nil, List.nil_append]
@@ -779,7 +782,7 @@ theorem seek_fresh_ok (e : List Byte) (B b : Nat) (hlen : e.length ≤ 4096) (hB
   have hpos : e.length > 0 := by omega
   have hnn : ¬ (min (e.length - 0) BITBUF_SIZE = 0 ∨ min (e.length - 0) BITBUF_SIZE + 0 > e.length) := by omega
   have hmin : min (e.length - 0) BITBUF_SIZE = e.length := by omega
-  have hst : startRead e = { elem := e, posn := e.length, maxOff := e.length, byteOff := 0, wAccess := false, wMode := false, bytez := BITBUF_SIZE, pre := [], post := e ++ (List.replicate BITBUF_SIZE (0 : Byte)).drop e.length, bytep := 0, bufRead := e.length, blockOff := 0, count := 0 } := by
+  have hst : startRead e = { elem := e, posn := e.length, maxOff := e.length, byteOff := 0, wAccess := false, wMode := false, bytez := e.length, pre := [], post := e ++ (List.replicate BITBUF_SIZE (0 : Byte)).drop e.length, bytep := 0, bufRead := e.length, blockOff := 0, count := 0 } := by
     unfold startRead
     have hnn' : ¬ (e.length = 0 ∨ e.length + 0 > e.length) := by omega
     simp only [hpos, if_true, hRead, Bool.false_eq_true, if_false, hnn, hnn', List.drop_zero, St.load, St.setPtr, St.buf,
@@ -792,36 +795,37 @@ theorem seek_fresh_ok (e : List Byte) (B b : Nat) (hlen : e.length ≤ 4096) (hB
   have hc1 : ¬ (b > BITNUM - 1 ∨ B > e.length) := by simp [BITNUM]; omega
   have hc2 : ¬ (B < 0 ∨ B ≥ 0 + BITBUF_SIZE) := by omega
   simp only [hc1, if_false, hc2, Bool.false_eq_true, St.setPtr, St.buf, List.reverse_nil, List.nil_append, Nat.sub_zero]
-  -- the buffer split at `B`
-  obtain ⟨x, r, hx⟩ : ∃ x r, List.drop B (e ++ Z) = x :: r := by
-    have : (List.drop B (e ++ Z)).length > 0 := by simp; omega
-    match h : List.drop B (e ++ Z) with
+  -- the element split at `B`
+  obtain ⟨x, r, hx⟩ : ∃ x r, List.drop B e = x :: r := by
+    have : (List.drop B e).length > 0 := by simp; omega
+    match h : List.drop B e with
     | [] => rw [h] at this; simp at this
     | x :: r => exact ⟨x, r, rfl⟩
+  have hxz : List.drop B (e ++ Z) = x :: (r ++ Z) := by
+    rw [List.drop_append_of_le_length (by omega), hx]; rfl
   have htl : (List.take B (e ++ Z)).length = B := by rw [List.length_take]; simp; omega
-  have hrl : r.length = 4096 - B - 1 := by
+  have hrl : r.length = e.length - B - 1 := by
     have := congrArg List.length hx; simp at this; omega
-  have hbits : bytesBits (List.drop B (e ++ Z)) = (bytesBits e).drop (8 * B) ++ bytesBits Z := by
-    rw [List.drop_append_of_le_length (by omega), bytesBits_append, drop_bytesBits]
+  have hbits : bytesBits (x :: r) = (bytesBits e).drop (8 * B) := by rw [← hx, drop_bytesBits]
+  rw [hxz]
   by_cases hb0 : b > 0
-  · simp only [hb0, if_true, St.peek, hx, St.adv]
-    refine ⟨trivial, ⟨rfl, rfl, rfl, rfl, by simp [htl], by simp only []; omega, by simp only []; omega, by simp [htl, hrl]; omega,
-      by simp [BITNUM]; omega, by simp⟩, ⟨bytesBits Z, ?_⟩⟩
+  · simp only [hb0, if_true, St.peek, St.adv]
+    refine ⟨trivial, ⟨rfl, rfl, rfl, rfl, by simp [htl], by simp only []; omega, by simp only []; omega, by simp [htl, hrl, hZl]; omega,
+      by simp [BITNUM]; omega, by simp⟩, ⟨[], ?_⟩⟩
     simp only [avail, rest, window, List.drop_length, bytesBits_nil, List.append_nil]
-    rw [List.take_of_length_le (by rw [hrl]; omega)]
+    rw [List.take_append_of_le_length (by omega), List.take_of_length_le (by omega)]
     have h8 : BITNUM - b = 8 - b := rfl
-    rw [h8, ← drop_msbBits x.toNat b (by omega), ← List.drop_drop]
-    have : bytesBits (x :: r) = (bytesBits e).drop (8 * B) ++ bytesBits Z := by rw [← hx]; exact hbits
-    rw [bytesBits_cons] at this
-    rw [← List.drop_append_of_le_length (by simp; omega), this, List.drop_append_of_le_length (by simp; omega)]
+    rw [h8, ← drop_msbBits x.toNat b (by omega), ← List.drop_drop, ← hbits, bytesBits_cons,
+      List.drop_append_of_le_length (by simp; omega)]
   · have hb' : b = 0 := by omega
     subst hb'
     simp only [Nat.lt_irrefl, gt_iff_lt, if_false]
-    refine ⟨trivial, ⟨rfl, rfl, rfl, rfl, by simp [htl], by simp only []; omega, by simp only []; omega, by simp [htl, hx, hrl]; omega,
-      by simp, by simp⟩, ⟨bytesBits Z, ?_⟩⟩
+    refine ⟨trivial, ⟨rfl, rfl, rfl, rfl, by simp [htl], by simp only []; omega, by simp only []; omega, by simp [htl, hrl, hZl]; omega,
+      by simp, by simp⟩, ⟨[], ?_⟩⟩
     simp only [avail, rest, window, msbBits, List.nil_append, List.drop_length, bytesBits_nil, List.append_nil, Nat.add_zero]
-    rw [List.take_of_length_le (by rw [hx]; simp [hrl]; omega)]
-    exact hbits
-
+    have : List.take (e.length - B) (x :: (r ++ Z)) = x :: r := by
+      rw [show e.length - B = (x :: r).length by simp [hrl]; omega]
+      exact List.take_left' rfl
+    rw [this, hbits]
 
 end H4.BitIO
